@@ -80,3 +80,12 @@ def replay_clq(p,repo):
   if not r: print("the contract holds: NOT reproduced"); return 0
   for f in r: print("FAILED     :",f)
   return 1
+
+def replay_meth(p,repo):
+  if repo not in sys.path: sys.path.insert(0,repo)
+  from zoo import methcheck
+  print("check      : explicit block / method constraints honoured by every scheduler"); print("design     :",p['design']); print(p['body'])
+  r=methcheck.check(repo,p['design'],p['body'],p.get('seed',0))
+  if not r: print("the contract holds: NOT reproduced"); return 0
+  for f in r: print("FAILED     :",f)
+  return 1
